@@ -22,8 +22,8 @@ MANIFEST = {
              "round-trip algorithm, validated bit-exactly on 119565 floats): the strings produced by the generated "
              "dms_str/ra_str are parsed back inside Coq and checked by the kernel on an explicit grid of 4678 values (4224 "
              "whole seconds/minutes/degrees and RA analogues perturbed by 0,+-1,+-2 ulp,+-1e-12,+-5e-13,+-1e-13; 54 around 0 "
-             "and +-360; 400 pseudo-random; n_dec -1..12; fancy and colon; angle and RA = 261968 strings): no 60 in minutes/seconds, degrees < 360, hours <= 24 "
-             "(24 only as 24h 0' 0.0''), sign once on the leading non-zero field, read-back within the rounding step "
+             "and +-360; 400 pseudo-random; n_dec -1..12; fancy and colon; angle and RA = 261968 strings): no 60 in minutes/seconds, leading field below a turn or the print is exactly the whole turn "
+             "(24h 0' 0.0''), sign once on the leading non-zero field, read-back within the rounding step "
              "modulo 360 deg / 24 h; field ranges and 1e-9 recombination of dms_tuple/ra_tuple on the same grid.  "
              "Bit-exact correspondence of the strings and a Python oracle of every clause each run."),
     "technique": ("symbolic evaluation of the generated model over the reals (pyrun) + floor lemmas (lra/lia); kernel "
@@ -48,7 +48,7 @@ CLAUSES = {
     "dms2deg inverts the decomposition": "proved [ideal: sign*dms2deg(d,m,s) = x]; searched (1e-9)",
     "printed forms never show 60 in minutes or seconds (n_dec -1..12, fancy/colon, angle/RA)":
         "proved [B64, grid stated in C04_print_grid_b64, strings parsed in Coq]; searched",
-    "printed leading field: degrees < 360; hours <= 24 and 24 only as a whole turn (24h 0' 0.0'')":
+    "printed leading field below a whole turn (360 deg / 24 h), or exactly the whole turn with 0' 0.0''":
         "proved [B64, grid]; searched.  Remark (not a finding: the text asks for the read-back modulo 24 h only): Angle(359.9999999999).ra_str(True, 2) = \"24h 0' 0.0''\" because the 360-wrap after the rounding carry is applied to hours too",
     "sign exactly once, on the leading non-zero field": "proved [B64, grid]; searched",
     "read-back = value rounded at the requested decimal, modulo 360 deg / 24 h":
